@@ -7,6 +7,7 @@ import (
 	"regexp"
 	"strconv"
 	"strings"
+	"unicode"
 )
 
 // StatsType is the stats operator.
@@ -63,7 +64,7 @@ type Filter struct {
 	statsPos       int           // position in stats result array
 	columnIndex    int           // copy of Column.Index if Column is of type LocalStore
 	columnOptional OptionalFlags // copy of Column.Optional
-	intValue       int64 // same as int64Value, kept wide so values beyond 8 bit are not truncated
+	intValue       int64         // same as int64Value, kept wide so values beyond 8 bit are not truncated
 	isEmpty        bool
 	negate         bool
 	groupOperator  GroupOperator
@@ -329,6 +330,10 @@ func (f *Filter) strValue() string {
 			value = f.customTag + " " + regexp.QuoteMeta(f.stringVal)
 		} else {
 			value = regexp.QuoteMeta(value)
+		}
+		// a blank at the end would get lost when the line is parsed again, the parser removes the ".*" again
+		if strings.TrimRightFunc(value, unicode.IsSpace) != value {
+			value += ".*"
 		}
 	default:
 	}
